@@ -132,6 +132,17 @@ impl Word {
         self.init = NO_BITS;
     }
 }
+#[cfg(endorpersand_lc3_ensemble_verif)]
+impl Word {
+    /// Verification hook: the raw `(data, init)` pair of this word.
+    pub fn verif_parts(&self) -> (u16, u16) {
+        (self.data, self.init)
+    }
+    /// Verification hook: builds a word from a raw `(data, init)` pair.
+    pub fn verif_from_parts(data: u16, init: u16) -> Self {
+        Self { data, init }
+    }
+}
 impl From<u16> for Word {
     /// Creates a fully initialized word.
     fn from(value: u16) -> Self {
